@@ -5,7 +5,7 @@ pub fn property() -> Property {
     Property {
         id: "C05",
         rule: "builder scenarios (see assumptions); oracle: per-asset preservation of value of every transaction produced (build_tx, build, build_tx_unsafe) after a balancing call reported success. Non-trivial = built and at least 2 of {multi-asset, mint/burn, deposit or refund, withdrawal, donation, several change outputs}; distinct by hash of the built body",
-        assumptions: vec!["scenarios: tape-decoded protocol parameters, keyring of 6 keys + 2 Byron roots, pools of 5 native and 5 Plutus scripts and 4 datums (overlaps between sources are common), a UTxO universe the scenario owns, and a sequence of builder operations (inputs by every public route, outputs, certificates of 17 shapes with key / native / Plutus credentials, withdrawals, mint and burn, votes, proposals, required signers, reference inputs, extra datums, auxiliary data, ttl, donation, collateral and its helper routes, fee requests, calc_script_data_hash, one of 7 balancing routes incl. the 4 coin-selection strategies), then build_tx / build / build_tx_unsafe".into(), "operations the library rejects with Err are recorded and skipped: the properties are conditional on success".into(), "UTxO values, owners and reference scripts come from the scenario's own map; sums, sizes, deposits, fees and hashes are recomputed from the emitted bytes by the engine (cbor.rs, ledger.rs), never asked from the library".into(), "a UTxO that carries a reference script is only spent through the add_regular_utxo route (the other input adders have no parameter to declare its script size)".into()],
+        assumptions: vec!["scenarios: tape-decoded protocol parameters, keyring of 6 keys + 2 Byron roots, pools of 5 native and 5 Plutus scripts and 4 datums, each also decoded from a second, non-canonical encoding (overlaps between sources are common; the Redeemer objects handed to the builder carry placeholder tags and indices; a reference input may be registered twice, plainly and with its script size), a UTxO universe the scenario owns, and a sequence of builder operations (inputs by every public route, outputs, certificates of 17 shapes with key / native / Plutus credentials, withdrawals, mint and burn, votes, proposals, required signers, reference inputs, extra datums, auxiliary data, ttl, donation, collateral and its helper routes, fee requests, calc_script_data_hash, one of 7 balancing routes incl. the 4 coin-selection strategies), then build_tx / build / build_tx_unsafe".into(), "operations the library rejects with Err are recorded and skipped: the properties are conditional on success".into(), "UTxO values, owners and reference scripts come from the scenario's own map; sums, sizes, deposits, fees and hashes are recomputed from the emitted bytes by the engine (cbor.rs, ledger.rs), never asked from the library".into(), "a UTxO that carries a reference script is only spent through the add_regular_utxo route (the other input adders have no parameter to declare its script size)".into()],
         subchecks: vec![SubCheck { name: "scenario", kind: Kind::Tape { quick: 600000, thorough: 15000000, max_len: 500 }, run: super::builder::c05_case }],
         crash_prone: false,
         max_reject_fraction: 0.1,
